@@ -463,7 +463,17 @@ func (cf *chanFn) selectIssues(sel *ast.SelectStmt, made map[string]bool) []side
 				if !hasGuard(gs, true, func(e ast.Expr) bool { return canon(e) == okv }) {
 					out = append(out, cf.issue(y, "send-when-closed", "T6: the case for %s sends although the receive may have reported the channel closed (a zero item is injected)", in))
 				}
-			case *ast.BranchStmt, *ast.ReturnStmt:
+			case *ast.BranchStmt:
+				// `continue` under "the channel was found closed" goes on with the next round of the select loop: it is the end of
+				// the closed branch written as a guard clause; everything else leaves or cuts the loop
+				if y.Tok == token.CONTINUE && y.Label == nil {
+					gs := guardsOf(&ast.BlockStmt{List: c.Body}, y)
+					if hasGuard(gs, false, func(e ast.Expr) bool { return canon(e) == okv }) {
+						break
+					}
+				}
+				out = append(out, cf.issue(y, "forward-early-exit", "T4: the select loop is left early"))
+			case *ast.ReturnStmt:
 				out = append(out, cf.issue(y, "forward-early-exit", "T4: the select loop is left early"))
 			}
 			return true
